@@ -113,4 +113,52 @@ theorem rxc_tie (g : Gen.MacRfFn.Mac) (m : MacState) (cr : CodingRate) (h : Rel 
   | none => rw [hx] at this; simp at this ⊢; simp [bind, Except.bind, ← this]
   | some r => rw [hx] at this; simp at this ⊢; simp [bind, Except.bind, ← this]
 
+
+/-- the model's reading of a generated channel selection -/
+def txM (t : Gen.MacRfFn.TxChannel) : TxChannel :=
+  { dr := t.dr, datarate := t.datarate, frequency := t.frequency.toNat, rx1Frequency := t.rx1_frequency.toNat }
+
+theorem windows_tie (g : Gen.MacRfFn.Mac) (m : MacState) (cr : CodingRate) (h : Rel g m cr) (t : Gen.MacRfFn.TxChannel) :
+    (Gen.MacRfFn.Mac.rx_windows g t).map (fun w => (rfM w.rx1, rfM w.rx2)) = (rxWindows m (txM t)).toOption := by
+  unfold Gen.MacRfFn.Mac.rx_windows rxWindows
+  have hb := fun dr => build_tie g m cr h t.rx1_frequency dr t.dr Window._1
+  have h2 := rx2_tie g m cr h t.dr
+  have ho : m.cfg.rx1DrOffset = g.configuration.rx1_dr_offset.toNat := by rw [h.cfg]; rfl
+  have hr : g.region.get_rx_datarate t.dr g.configuration.rx1_dr_offset Window._1
+      = (rxDatarate m.region.id t.dr g.configuration.rx1_dr_offset.toNat Window._1).toOption := by rw [h.region]; rfl
+  simp only [txM, ho, hr]
+  cases h1 : rxDatarate m.region.id t.dr g.configuration.rx1_dr_offset.toNat Window._1 with
+  | error e => simp [Except.toOption, bind, Except.bind]
+  | ok d1 =>
+    have hb1 := hb d1
+    cases hx : Gen.MacRfFn.Mac.build_rf_config g t.rx1_frequency d1 t.dr Window._1 with
+    | none =>
+      rw [hx] at hb1
+      cases hy : buildRfConfig m t.rx1_frequency.toNat d1 t.dr with
+      | ok r => rw [hy] at hb1; simp [Except.toOption] at hb1
+      | error e => simp [Except.toOption, bind, Except.bind, hy, hx]
+    | some r1 =>
+      rw [hx] at hb1
+      cases hy : buildRfConfig m t.rx1_frequency.toNat d1 t.dr with
+      | error e => rw [hy] at hb1; simp [Except.toOption] at hb1
+      | ok r1' =>
+        rw [hy] at hb1
+        simp only [Option.map_some, Except.toOption, Option.some.injEq] at hb1
+        cases hz : Gen.MacRfFn.Mac.rx2_rf_config g t.dr with
+        | none =>
+          rw [hz] at h2
+          cases hw : rx2RfConfig m t.dr with
+          | ok r => rw [hw] at h2; simp [Except.toOption] at h2
+          | error e => simp [Except.toOption, bind, Except.bind, hy, hw, hx, hz]
+        | some r2 =>
+          rw [hz] at h2
+          cases hw : rx2RfConfig m t.dr with
+          | error e => rw [hw] at h2; simp [Except.toOption] at h2
+          | ok r2' =>
+            rw [hw] at h2
+            simp only [Option.map_some, Except.toOption, Option.some.injEq] at h2
+            subst hb1 h2
+            simp [Except.toOption, bind, Except.bind, hy, hw, hx, hz]
+            rfl
+
 end TieA.MacRf
